@@ -4,7 +4,7 @@ use std::borrow::Cow;
 
 use winnow::{
     ascii::{space0, space1},
-    combinator::{cond, cut_err, opt, peek, preceded, repeat, terminated, trace},
+    combinator::{alt, cond, cut_err, opt, peek, preceded, repeat, terminated, trace},
     error::StrContext,
     stream::{AsChar, Stream, StreamIsPartial},
     token::{none_of, one_of, take_while},
@@ -39,7 +39,9 @@ where
             opt(preceded(one_of('='), primitive::date)),
         )
         .parse_next(input)?;
-        let is_shortest = has_peek(character::line_ending_or_eof).parse_next(input)?;
+        // metadata may follow the date directly.
+        let is_shortest =
+            has_peek(alt((character::line_ending_or_eof, one_of(';').void()))).parse_next(input)?;
         // Date (and effective date) should be followed by space, unless followed by line_ending.
         cond(!is_shortest, space1).void().parse_next(input)?;
         let clear_state = metadata::clear_state(input)?;
